@@ -760,7 +760,13 @@ fn parse_line(line: &str) -> Option<(String, usize, DataSpec, Vec<Op>)> {
 
 // ---------------------------------------------------------------------------------------------
 
+#[path = "hasher_flm.rs"]
+mod flm;
+
 pub fn run_cmd(args: &Args) {
+    if args.rest.first().map(|x| x.as_str()) == Some("flm") {
+        return flm::run(args);
+    }
     let thorough = args.tier == "thorough";
     let seed = args.seed;
     std::panic::set_hook(Box::new(|_| {}));
